@@ -517,8 +517,8 @@ class GromacsEngine(EngineBase):
                 system.pos = data["x"]
                 system.vel = data["v"]
                 system.box = box_matrix_to_list(data["box"], full=True)
-                if system.vel is not None and reverse:
-                    system.vel *= -1
+                # calculate_order reverses the velocities when the system
+                # is flagged with vel_rev (set by propagate for reverse)
                 order = self.calculate_order(
                     system, xyz=system.pos, vel=system.vel, box=system.box
                 )
